@@ -71,7 +71,7 @@ func c02Tier(tier string) (exh, random int) {
 	if tier == "thorough" {
 		return 4 * 5 * 16 * 16 * 2, 3000000
 	}
-	return 4 * 5 * 16 * 16 * 2, 30000
+	return 4 * 5 * 16 * 16 * 2, 300000
 }
 
 func c02Fixed(idx int, r *core.Rng) *TNode {
